@@ -15,7 +15,9 @@ EXPLANATION = (
     "through a member routine the constructor resolved from the type context; structured keys are filtered by membership in the field map. "
     "R03.2 every return of a scalar/temporal unmarshaller is class-guarded on its path (isinstance / __class__ is), freshly constructed from the "
     "target class, or a delegation. R03.3 a zip of routine stack and input is arity-checked. R03.4 Literal returns are dominated by a membership "
-    "test on the same value and the fall-through raises ValueError. R03.5 GENERIC_TYPE_MAP yields concrete constructors of the right kind (shared with C17)."
+    "test on the same value and the fall-through raises ValueError. R03.5 GENERIC_TYPE_MAP yields concrete constructors of the right kind (shared with C17). "
+    "R03.6 composite forms reach the routine of their own kind. R03.7 a TypedDict result has its required keys. R03.8 the graph's leaf test routes no "
+    "concrete class to the pass-through routine. R03.9 member hints are produced without Annotated[...] wrappers (no predicate looks through one). R03.10 = R15.10."
 )
 ASSUMPTIONS = [
     "required keys of a total TypedDict are runtime metadata enforced by nothing in the constructor path (ND; dynamic-only observation)",
@@ -295,6 +297,14 @@ def run(prog: Program, rep: Report, tier: str):
     rep.rule("R03.4", "Literal membership dominates every return and is class-aware; fall-through raises ValueError", floor=5)
     rep.rule("R03.7", "a TypedDict result has its required keys", floor=1)
     r03_7(prog, rep)
+    rep.rule("R03.9", "member hints carry no Annotated wrapper (shared with R18.11)", floor=1)
+    from . import c11
+
+    c11.hints_stripped(prog, rep, "R03.9")
+    rep.rule("R03.10", "members of a parameterised user generic get the alias's arguments in the member's own parameter order (shared with R15.10)", floor=1)
+    from . import c15
+
+    c15.alias_substitution(prog, rep, "R03.10")
     rep.rule("R03.8", "no concrete class is routed to the pass-through routine (leaf test interpreted on the catalogue; shared with R09.9)", floor=1)
     C.leaf_test_agreement(prog, rep, "R03.8")
     rep.rule("R03.6", "composite forms reach the routine of their own structural kind (fixed tuples keep arity/positions; shared with R01.6)", floor=15)
